@@ -252,6 +252,37 @@ func c08Pairs(c *Ctx, p *Prog, ms map[string]*ssa.Function) {
 		}
 	}
 	c.Check(okW && okF, "C08-R2", "Resize:width+force-dirty", p.pos(resize.Pos()), fmt.Sprintf("width copied: %v; surviving cells force-dirty: %v", okW, okF))
+	// no path may carry whole cells (with their last* and lock state) into the new buffer:
+	// the new buffer is filled field by field with the current content only
+	bulk := ""
+	nCellStores := 0
+	for _, fn := range p.modFns {
+		if fn.Pkg != p.Tcell {
+			continue
+		}
+		eachInstr(fn, func(in ssa.Instruction) {
+			if cc := callCommon(in); cc != nil {
+				if bi, ok := cc.Value.(*ssa.Builtin); ok && bi.Name() == "copy" && len(cc.Args) == 2 {
+					if sl, ok := cc.Args[0].Type().Underlying().(*types.Slice); ok && typeName(sl.Elem()) == cellOwner {
+						bulk += fmt.Sprintf("%s copies a slice of cells at %s; ", fn.Name(), p.pos(in.Pos()))
+					}
+				}
+			}
+			if st, ok := in.(*ssa.Store); ok && typeName(st.Val.Type()) == cellOwner {
+				nCellStores++
+				bulk += fmt.Sprintf("%s stores a whole cell at %s; ", fn.Name(), p.pos(in.Pos()))
+			}
+		})
+	}
+	c.Check(bulk == "", "C08-R2", "cells:no-whole-cell-copy", p.pos(resize.Pos()), "cells are never copied wholesale (that would carry the clean-mark and lock of the old cell along) "+bulk)
+	// every store of cb.cells in Resize is a freshly made slice
+	okFresh := true
+	for _, s := range storesTo(resize, cbOwner, "cells") {
+		if _, ok := derefCell(s.Val).(*ssa.MakeSlice); !ok {
+			okFresh = false
+		}
+	}
+	c.Check(okFresh, "C08-R2", "Resize:fresh-buffer", p.pos(resize.Pos()), "Resize installs a freshly made (all force-dirty, unlocked) slice")
 }
 
 func c08Lock(c *Ctx, p *Prog, ms map[string]*ssa.Function) {
@@ -533,6 +564,85 @@ func c08Width(c *Ctx, p *Prog, rule string) {
 				why = "currMain is stored but width is not recomputed from the same rune: a non-printing or wide rune keeps a stale width (control runes reach the terminal, wide runes overlap)"
 			}
 			c.Check(ok, rule, key, p.pos(s.Pos()), why)
+		}
+		// every store to width in such a function is of an approved kind: a path that
+		// stores some other width lets a non-printing rune through with a printing width
+		for j, ws := range storesTo(fn, cellOwner, "width") {
+			key := fmt.Sprintf("%s:width-store#%d", short, j+1)
+			okW, why := false, ""
+			if call, isCall := ws.Val.(*ssa.Call); isCall && strings.HasSuffix(calleeName(&call.Call), "go-runewidth.RuneWidth") && len(call.Call.Args) == 1 {
+				for _, s := range stores {
+					if s.Val == call.Call.Args[0] {
+						okW, why = true, "RuneWidth of the rune stored to currMain"
+					}
+				}
+			}
+			if r1, _, ok1 := loadedField(ws.Val); ok1 && r1.Name == "width" {
+				okW, why = true, "copied from a source cell"
+			}
+			if k, isC := constInt(ws.Val); isC && !okW {
+				// a constant width is right only for runes proven printable ASCII (0x20..0x7e):
+				// DEL, C0 and C1 controls have width 0
+				lo, hi := int64(-1), int64(1<<31)
+				for _, g := range rawGuardsAt(ws.Block()) {
+					bo, isBO := g.Cond.(*ssa.BinOp)
+					if !isBO {
+						continue
+					}
+					isRune := false
+					for _, s := range stores {
+						if bo.X == s.Val {
+							isRune = true
+						}
+					}
+					kk, isK := constInt(bo.Y)
+					if !isRune || !isK {
+						continue
+					}
+					op := bo.Op
+					if !g.Positive {
+						switch op {
+						case token.LSS:
+							op = token.GEQ
+						case token.LEQ:
+							op = token.GTR
+						case token.GTR:
+							op = token.LEQ
+						case token.GEQ:
+							op = token.LSS
+						default:
+							continue
+						}
+					}
+					switch op {
+					case token.GEQ:
+						if kk > lo {
+							lo = kk
+						}
+					case token.GTR:
+						if kk+1 > lo {
+							lo = kk + 1
+						}
+					case token.LSS:
+						if kk-1 < hi {
+							hi = kk - 1
+						}
+					case token.LEQ:
+						if kk < hi {
+							hi = kk
+						}
+					}
+				}
+				if k == 1 && lo >= 0x20 && hi <= 0x7e {
+					okW, why = true, fmt.Sprintf("constant 1 for runes in %#x..%#x (printable ASCII)", lo, hi)
+				} else {
+					why = fmt.Sprintf("constant width %d for runes in %#x..%#x: not all of them are printable single-column characters (DEL and control characters have width 0)", k, lo, hi)
+				}
+			}
+			if !okW && why == "" {
+				why = "width stored from " + valName(ws.Val) + ", which is neither RuneWidth of the stored rune nor a copy"
+			}
+			c.Check(okW, rule, key, p.pos(ws.Pos()), why)
 		}
 	}
 	if n < 3 {
